@@ -366,11 +366,33 @@ Print Assumptions C14_publish_accepted_as_unhooked.
 
 Theorem C14_rewrite_fields : forall t p q m,
   let m' := rewrite_msg t p q m in
-  m_topic m' = t /\ m_payload m' = p /\ m_qos m' = q /\ m_retained m' = m_retained m /\ m_dup m' = m_dup m /\
+  m_topic m' = t /\ m_payload m' = p /\ m_qos m' = rw_qos q /\ m_retained m' = rw_retain q (m_retained m) /\ m_dup m' = m_dup m /\
   m_ctype m' = m_ctype m /\ m_corr m' = m_corr m /\ m_expiry m' = m_expiry m /\ m_pfmt m' = m_pfmt m /\
   m_resp m' = m_resp m /\ m_uprops m' = m_uprops m.
 Proof. exact pub_rewrite_fields. Qed.
 Print Assumptions C14_rewrite_fields.
+
+(* the RETAIN flag the hook leaves on the message is the one that counts: a rewrite that clears it keeps the
+   message out of the retained store, a rewrite that sets it stores a message published without RETAIN *)
+Theorem C14_rewrite_clears_retain : forall t p q m s,
+  q / 4 = 1 -> b_ret (retain_update (rewrite_msg t p q m) s) = b_ret s.
+Proof.
+  intros t p q m s H. unfold retain_update, rewrite_msg. cbn [m_retained]. unfold rw_retain. rewrite H. reflexivity.
+Qed.
+Print Assumptions C14_rewrite_clears_retain.
+
+Theorem C14_rewrite_sets_retain : forall t p q m s,
+  q / 4 = 2 -> m_retained (rewrite_msg t p q m) = true /\
+  retain_update (rewrite_msg t p q m) s = set_ret (rdb_step (b_ret s) (retain_op (rewrite_msg t p q m))) s.
+Proof.
+  intros t p q m s H. unfold retain_update, rewrite_msg. cbn [m_retained]. unfold rw_retain. rewrite H. split; reflexivity.
+Qed.
+Print Assumptions C14_rewrite_sets_retain.
+
+Example C14_rw_retain_codes :
+  rw_qos 1 = 1 /\ rw_retain 1 true = true /\ rw_retain 1 false = false /\
+  rw_qos 5 = 1 /\ rw_retain 5 true = false /\ rw_qos 10 = 2 /\ rw_retain 10 false = true.
+Proof. vm_compute. repeat split; reflexivity. Qed.
 
 Example C14_publish_nonvacuous :
   exists k, nget 2 (b_conns ex_h2) = Some k /\ k_phase k = PhConnected /\ k_v k = 5 /\
@@ -416,7 +438,7 @@ Print Assumptions C14_will_hook_enforced.
 
 Theorem C14_will_rewrite_fields : forall t p q m,
   let m' := with_topic_payload_qos t p q m in
-  m_topic m' = t /\ m_payload m' = p /\ m_qos m' = q /\ m_retained m' = m_retained m /\ m_dup m' = m_dup m /\
+  m_topic m' = t /\ m_payload m' = p /\ m_qos m' = rw_qos q /\ m_retained m' = rw_retain q (m_retained m) /\ m_dup m' = m_dup m /\
   m_ctype m' = m_ctype m /\ m_corr m' = m_corr m /\ m_expiry m' = m_expiry m /\ m_pfmt m' = m_pfmt m /\
   m_resp m' = m_resp m /\ m_uprops m' = m_uprops m.
 Proof. exact will_rewrite_fields. Qed.
